@@ -25,6 +25,7 @@ RULE = ('(1) random token sequences (all symbols, keywords, plain/@/! identifier
         'value is checked; distinct by text')
 ASSUMPTIONS = ['ASCII identifiers and ASCII inter-token whitespace only (README does not describe the others)',
                'literal forms as in README "Types" and the escape set spelled out by tests/test_lexer.py']
+REQUIRED_HIDC_FUNCTIONS = ['lexer/readers:read_int_token', 'lexer/readers:read_symbol_token', 'lexer/readers:read_char_escape', 'lexer/scanner:Marker.advance']     # M-COV: deciding code never entered => inconclusive
 MIN_NONTRIVIAL = {'quick': 8000, 'thorough': 60000}
 
 
